@@ -87,3 +87,35 @@ Definition is_answer_to (name : str) (o : event) : Prop :=
   exists cmd text, ctcp_tag cmd /\
     ev_params o = [to_rfc1459 name; encode_ctcp_raw cmd text] /\
     ctcp_payload (encode_ctcp_raw cmd text) cmd text.
+
+(* ---- two clients talking to each other ---------------------------------- *)
+
+(* what the other side receives when a client whose nickname is `nick` sends o *)
+Definition as_received (nick : str) (o : event) : event :=
+  mk_event (Some nick) (ev_command o) (ev_params o).
+
+(* the CTCP stage over everything in an inbox, outputs in order *)
+Fixpoint stage_all (t : table) (inbox : list event) : res (list event) :=
+  match inbox with
+  | [] => Ok []
+  | e :: r => o <- ctcp_stage t e ;; os <- stage_all t r ;; Ok (o ++ os)
+  end.
+
+(* Clients A and B (nicknames na, nb; default tables in environments va, vb) are alone on
+   a network.  `inbox` arrives at A; whatever A answers automatically is delivered to B,
+   whatever B answers to that is delivered to A, and so on for at most `rounds` rounds.
+   The result is every automatic answer produced, in order, and whether the exchange has
+   ended (false = still messages in flight after `rounds` rounds). *)
+Fixpoint volley (rounds : nat) (va vb : env) (na nb : str) (inbox : list event)
+  : res (list event * bool) :=
+  match inbox with
+  | [] => Ok ([], true)
+  | _ =>
+    match rounds with
+    | O => Ok ([], false)
+    | S n =>
+        outs <- stage_all (default_table va) inbox ;;
+        rest <- volley n vb va nb na (List.map (as_received na) outs) ;;
+        Ok (outs ++ fst rest, snd rest)
+    end
+  end.
